@@ -5,15 +5,18 @@ From GTP Require Import C08_proofs.
 
 (* the decision core, for ALL expected types and ALL literals (any wrapper / nesting depth):
    walking literal v where type t is expected produces no error iff v is coercible to t.
-   [value_errors s (Some t) v] = the errors of the rule's handler on the walk of v alone. *)
-Theorem C08_core : forall s t v, wf_schema s = true ->
+   [value_errors s (Some t) v] = the errors of the rule's handler on the walk of v alone.
+   [ty_proper t]: t is a type the grammar can express (no "T!!"); without it the statement is
+   false (C08_core_counterexample: "[Int]!!" = TNonNull (TNonNull (TList (TNamed "Int"))) and the
+   literal []: the model strips one "!" before testing for a list type, the specification all). *)
+Theorem C08_core : forall s t v, wf_schema s = true -> ty_proper t = true ->
   is_input_or_unknown s (inner_type t) = true ->
   (value_errors s (Some t) v = [] <-> coercibleb s v t = true).
 Proof. exact value_errors_coercible. Qed.
 Print Assumptions C08_core.
 
-(* the rule, run alone on a document *)
-Theorem C08_values_of_correct_type : forall s d, wf_schema s = true ->
+(* the rule, run alone on a document whose variable types are expressible in the grammar *)
+Theorem C08_values_of_correct_type : forall s d, wf_schema s = true -> doc_types_proper d = true ->
   rule_in_scope R_ValuesOfCorrectType s d = true ->
   (run_alone R_ValuesOfCorrectType s d <> [] <-> violated R_ValuesOfCorrectType s d = true).
 Proof. exact values_of_correct_type_iff. Qed.
